@@ -140,6 +140,25 @@ def build_geoimage(path):
         img.vertices = np.array([[0.0, 4, 0], [4, 4, 0], [4, 0, 0], [0, 0, 0]])
 
 
+def build_orphan(path):
+    """A file in which the library itself left an object (with data) in the flat containers that no parent lists any more
+    (Group.remove_children); it is read only when the tree is rebuilt from the flat containers."""
+    import numpy as np
+    from geoh5py import Workspace
+    from geoh5py.groups import ContainerGroup
+    from geoh5py.objects import Curve, Points
+
+    with Workspace.create(path) as ws:
+        g = ContainerGroup.create(ws, name="g")
+        h = ContainerGroup.create(ws, name="h", parent=g)
+        a = Points.create(ws, name="keep", parent=h, vertices=np.array([[0.0, 0, 0], [1, 0, 0]]))
+        a.add_data({"ka": {"values": _ints(2)}})
+        b = Curve.create(ws, name="orphan", parent=g, vertices=np.array([[0.0, 0, 0], [1, 0, 0], [2, 0, 0]]),
+                         cells=np.array([[0, 1], [1, 2]], dtype="uint32"))
+        b.add_data({"ob": {"values": _ints(3)}})
+        g.remove_children([b])
+
+
 FAMILIES = {
     "groups": build_groups,
     "pcs": build_points_curve_surface,
@@ -148,6 +167,7 @@ FAMILIES = {
     "drillhole_v1": build_drillhole_v1,
     "textref": build_text_ref,
     "geoimage": build_geoimage,
+    "orphan": build_orphan,
 }
 
 
@@ -482,6 +502,45 @@ def snap_entity(e):
     return out
 
 
+def snap_ws(ws, res):
+    """Snapshot an open workspace into res (project, root, entities, tree)."""
+    for f in ("version", "distance_unit", "ga_version", "contributors", "name"):
+        res["project"][f] = _get(ws, f)
+    res["root"] = str(ws.root.uid) if ws.root is not None else None
+    res["root_on_file"] = bool(getattr(ws.root, "on_file", False))
+    ents = list(ws.groups) + list(ws.objects) + list(ws.data)
+    for e in ents:
+        res["entities"][str(e.uid)] = snap_entity(e)
+    # a second pass: lazy getters may register further entities (visual parameters, concatenated data)
+    for e in list(ws.groups) + list(ws.objects) + list(ws.data):
+        if str(e.uid) not in res["entities"]:
+            res["entities"][str(e.uid)] = snap_entity(e)
+    res["tree"] = tree_listing(ws)
+
+
+def tree_listing(ws):
+    """What hangs on ws.root, walked through `children`: [(depth, class, name, uid, registered in the workspace)], the root's own
+    identifier replaced by ROOT (a rebuilt root draws a new one)."""
+    out = []
+    try:
+        registered = {e.uid for e in list(ws.groups) + list(ws.objects) + list(ws.data)}
+        root_uid = ws.root.uid
+
+        def rec(entity, depth):
+            if depth > 12 or len(out) > 2000:
+                return
+            kids = [c for c in getattr(entity, "children", []) if hasattr(c, "children") or hasattr(c, "values")]
+            for c in sorted(kids, key=lambda c: (str(c.name), str(c.uid))):
+                out.append([depth, type(c).__name__, str(c.name), "ROOT" if c.uid == root_uid else str(c.uid), c.uid in registered])
+                if hasattr(c, "children") and hasattr(c, "add_children"):
+                    rec(c, depth + 1)
+
+        rec(ws.root, 0)
+    except Exception as e:  # noqa: BLE001
+        out.append([-1, "exc", type(e).__name__, "", False])
+    return out
+
+
 def walk(path, mode="r"):
     """Open with geoh5py and snapshot.  Returns {"open": "ok"|{"exc":..}, "project": {...}, "entities": {uid: snap}, "root": uid}."""
     from geoh5py import Workspace
@@ -495,23 +554,74 @@ def walk(path, mode="r"):
         res["open"] = {"exc": type(e).__name__, "msg": str(e)[:200]}
         return res
     try:
-        for f in ("version", "distance_unit", "ga_version", "contributors", "name"):
-            res["project"][f] = _get(ws, f)
-        res["root"] = str(ws.root.uid) if ws.root is not None else None
-        res["root_on_file"] = bool(getattr(ws.root, "on_file", False))
-        ents = list(ws.groups) + list(ws.objects) + list(ws.data)
-        for e in ents:
-            res["entities"][str(e.uid)] = snap_entity(e)
-        # a second pass: lazy getters may register further entities (visual parameters, concatenated data)
-        for e in list(ws.groups) + list(ws.objects) + list(ws.data):
-            if str(e.uid) not in res["entities"]:
-                res["entities"][str(e.uid)] = snap_entity(e)
+        snap_ws(ws, res)
     finally:
         try:
             ws.close()
         except BaseException as e:  # noqa: BLE001
             res["close"] = {"exc": type(e).__name__}
     return res
+
+
+def walk_reused(path, damage, mode="r"):
+    """A long-lived Workspace object: open the intact file, close, apply `damage()` to the file, open the SAME object again with
+    .open() and snapshot.  Returns like walk()."""
+    from geoh5py import Workspace
+
+    res = {"open": "ok", "entities": {}, "project": {}, "root": None}
+    ws = Workspace(path, mode=mode)
+    try:
+        len(ws.groups), len(ws.objects), len(ws.data)
+    finally:
+        ws.close()
+    damage()
+    try:
+        ws.open(mode=mode)
+    except BaseException as e:  # noqa: BLE001
+        if isinstance(e, KeyboardInterrupt):
+            raise
+        res["open"] = {"exc": type(e).__name__, "msg": str(e)[:200]}
+        try:
+            ws.close()
+        except BaseException:  # noqa: BLE001
+            pass
+        return res
+    try:
+        snap_ws(ws, res)
+    finally:
+        try:
+            ws.close()
+        except BaseException as e:  # noqa: BLE001
+            res["close"] = {"exc": type(e).__name__}
+    return res
+
+
+# dataset label -> the getter that reads it
+STORED = {"Vertices": "vertices", "Cells": "cells", "Data": "values", "Surveys": "surveys", "Octree Cells": "octree_cells",
+          "U cell delimiters": "u_cell_delimiters", "V cell delimiters": "v_cell_delimiters", "Z cell delimiters": "z_cell_delimiters",
+          "Metadata": "metadata"}
+
+
+def stored_unread(path, w):
+    """[(uid, label)] for every returned entity whose node (flat container, by identifier) holds dataset `label` while the getter
+    that reads it returned None or raised: content that is in the file and not in what the reader returns."""
+    import h5py
+
+    out = []
+    with h5py.File(path, "r") as f:
+        top = f[list(f)[0]]
+        for u, e in w["entities"].items():
+            if e["class"].startswith(("C:", "Cr:")):
+                continue
+            for flat in ("Groups", "Objects", "Data"):
+                if flat in top and "{" + u + "}" in top[flat]:
+                    node = top[flat]["{" + u + "}"]
+                    for label, field in STORED.items():
+                        if label in node and isinstance(node[label], h5py.Dataset) and field in e:
+                            v = e[field]
+                            if v is None or (isinstance(v, dict) and "exc" in v):
+                                out.append([u, label])
+    return out
 
 
 # ----------------------------------------------------------------------------- deterministic identifiers while building
